@@ -285,9 +285,86 @@ func TestVerif_C09(t *testing.T) {
 	if t.Failed() {
 		return
 	}
+	if vfOnlySub("lex") && !vfReplayMode() {
+		// every byte value at the lexical hot spots: escape character, the four hex digits, the
+		// characters of numbers and literals, separators, around the document
+		tpls := []string{"[\"\\uS000\"]", "[\"\\u0S00\"]", "[\"\\u00S0\"]", "[\"\\u000S\"]", "{\"\\u00S9\":1}", "[\"\\S\"]", "[\"a\\Sb\"]", "{\"k\\S\":[]}",
+			"[S]", "[1S]", "[-S]", "[1.S]", "[1eS]", "[1e+S]", "[0S]", "[-0S1]", "[tSue]", "[nulS]", "[falsS]", "[Srue]", "{\"a\"S1}", "{\"a\":1S\"b\":2}", "[1S2]", "[\"a\"S]",
+			"S[1]", "[1]S", "{S\"a\":1}", "[\"S\"]", "{\"S\":1}", "[[]S[]]", "{\"a\":{}S}", "[1,S]", "{\"a\":1,S}"}
+		sh, nsh := vfShard(), vfNShards()
+		n := 0
+		for ti, tpl := range tpls {
+			if ti%nsh != sh {
+				continue
+			}
+			slot := strings.IndexByte(tpl, 'S')
+			for v := 0; v < 256; v++ {
+				doc := []byte(tpl)
+				doc[slot] = byte(v)
+				for _, L := range []uint32{0, uint32(len(doc)), uint32(len(doc) + 1), uint32(slot + 1), uint32(slot + 2)} {
+					c := c09Case{H: doc, Limit: L}
+					r := c09Check(c)
+					n++
+					r.Labels = append(r.Labels, "lex")
+					vfStats.record(r, func() any { return map[string]any{"sub": "lex", "template": tpl, "byte": v, "limit": L} })
+					if r.Err != nil {
+						vfEnumFail(t, "C09", "mut", c, r.Err)
+						return
+					}
+				}
+			}
+		}
+		// long tokens (digit runs, strings, white space, fractions, exponents of 17-24 bytes): every
+		// byte value at every position of the token - scans that take 8 or 16 bytes at a time
+		long := []struct{ pre, tok, post string }{{"[", "12345678901234567", "]"}, {"{\"x\": ", "123456789012345678", "}"}, {"[\"", "abcdefghijklmnopqrstuvwx", "\"]"},
+			{"[1,", "                 ", "2]"}, {"[0.", "12345678901234567", "]"}, {"[1e", "12345678901234567", "]"}, {"[-", "12345678901234567", ",1]"}, {"{\"", "kkkkkkkkkkkkkkkkkkkk", "\":1}"}}
+		for li, lt := range long {
+			if li%nsh != sh {
+				continue
+			}
+			for p := 0; p < len(lt.tok); p++ {
+				for v := 0; v < 256; v++ {
+					doc := []byte(lt.pre + lt.tok + lt.post)
+					doc[len(lt.pre)+p] = byte(v)
+					for _, L := range []uint32{0, uint32(len(doc))} {
+						c := c09Case{H: doc, Limit: L}
+						r := c09Check(c)
+						n++
+						r.Labels = append(r.Labels, "lex-long-token")
+						vfStats.record(r, func() any { return map[string]any{"sub": "lex", "token": lt.tok, "pos": p, "byte": v, "limit": L} })
+						if r.Err != nil {
+							vfEnumFail(t, "C09", "mut", c, r.Err)
+							return
+						}
+					}
+				}
+			}
+		}
+		vfStats.Subchecks["lex"] = fmt.Sprintf("%d templates with one slot x 256 byte values x 5 limits, %d long tokens x every position x 256 values (this shard: %d cases)", len(tpls), len(long), n)
+	}
+	if t.Failed() {
+		return
+	}
 	if vfOnlySub("huge") && !vfReplayMode() && vfShard() < 2 {
 		// a complete 70 KB / 1.1 MB document followed by something that does not belong there
 		base := vfBig("json-array", []int{70000, 1100000}[vfShard()])
+		if vfShard() == 1 {
+			// one size beyond 2^23 and one beyond 2^24 bytes as well
+			for _, n := range []int{9 << 20, 17 << 20} {
+				big := vfBig("json-array", n)
+				for _, tail := range []string{"x", "]"} {
+					doc := append(append([]byte(nil), big...), tail...)
+					c := c09Case{H: doc, Limit: 0}
+					r := c09Check(c)
+					r.Labels = append(r.Labels, "huge")
+					vfStats.record(r, func() any { return map[string]any{"sub": "huge", "len": len(doc), "tail": tail} })
+					if r.Err != nil {
+						vfEnumFail(t, "C09", "mut", c09Case{H: doc[len(doc)-100:], Limit: 0}, fmt.Errorf("%d-byte complete document followed by %q: %v", len(big), tail, r.Err))
+						return
+					}
+				}
+			}
+		}
 		for _, tail := range []string{"x", "]", ",", "{\"a\":1}", " \x0c", "\n[1]"} {
 			doc := append(append([]byte(nil), base...), tail...)
 			for _, L := range []uint32{0, uint32(len(doc) + 1), 2 << 20} {
